@@ -36,7 +36,8 @@ META = {
 GEN = []
 MODULES = ['TamocV.Props.C19', 'TamocV.Model.Blowout', 'TamocV.Model.Particle09']
 RULE = ('histories of 1-12 queries on ONE object: FluidMixture of 1-5 database compounds (binary interaction zero / constant / '
-        'group-contribution) queried with density, fugacity, viscosity, interface_tension, equilibrium, solubility, diffusivity, '
+        'group-contribution dict or array; every third mixture and fluid particle built with user_data overriding C_pen / C_pen_T for all or '
+        'some components incl. the first, 30 % with user k_bio / t_bio, 30 % of the mixtures with a sigma_correction array) queried with density, fugacity, viscosity, interface_tension, equilibrium, solubility, diffusivity, '
         'masses, moles, mol_frac, mass_frac, partial_pressures, biodegradation_rate over 1-4 interleaved (composition, T, P, S) '
         'states; cache histories: 7-12 queries (density, fugacity, solubility, viscosity, interface_tension, return_all) on ONE fp_type=2 particle of 4-6 '
         'gas+liquid compounds at pre-screened fast two-phase states, interleaving the full composition with 2-3 different zero-mass patterns, every '
@@ -175,6 +176,70 @@ def describe(s):
 
 
 # ---------------------------------------------------------------------------
+# constructor options that hand arrays to the library BY REFERENCE (non-default values)
+# ---------------------------------------------------------------------------
+
+def user_options(r, comp, idx, for_particle=False):
+    """constructor keyword arguments with NON-DEFAULT by-reference parameters.  Every third object (idx % 3 == 0, i.e. a
+    fixed share >= 30 %) gets user_data overriding the Peneloux volume shift C_pen / C_pen_T with non-zero values — for all
+    components or for some components only, always incl. the FIRST (whose C_pen selects the user branch of
+    dbm_p.volume_trans); independently user k_bio / t_bio, a user delta matrix, a delta_groups dict / ARRAY and (mixture
+    only) a sigma_correction array.  returns (kw, description)"""
+    from tamoc import dbm
+    from tamoc import chemical_properties as cp
+    n = len(comp)
+    kw, d = {}, dict(user_C_pen=None, user_bio=False)
+    ud = {}
+    chem, _cu, bio, _bu, _pj, _pju = cp.tamoc_data()
+
+    def props_of(c):
+        if c not in ud:
+            p = dict(chem[c])
+            p.update(bio[c])
+            ud[c] = p
+        return ud[c]
+    if idx % 3 == 0:
+        some = n >= 2 and r.random() < 0.5
+        who = [comp[0]] + (r.sample(list(comp[1:]), r.randint(0, n - 2)) if some else list(comp[1:]))
+        for c in who:
+            p = props_of(c)
+            p['C_pen'] = r.choice([-1, 1]) * r.uniform(5e-7, 5e-6)
+            p['C_pen_T'] = r.choice([-1, 1]) * r.uniform(2e-9, 2e-8)
+        d['user_C_pen'] = {c: (ud[c]['C_pen'], ud[c]['C_pen_T']) for c in who}
+    if r.random() < 0.3:
+        for c in r.sample(list(comp), r.randint(1, n)):
+            p = props_of(c)
+            p['k_bio'] = r.uniform(1e-7, 1e-5)
+            p['t_bio'] = r.uniform(0., 5e5)
+        d['user_bio'] = True
+    if ud:
+        kw['user_data'] = ud
+    dm = r.choice(['zero', 'zero', 'const', 'groups', 'groups-array'])
+    if dm == 'const':
+        m = np.zeros((n, n))
+        for i in range(n):
+            for j in range(i + 1, n):
+                m[i, j] = m[j, i] = r.uniform(-0.05, 0.15)
+        kw['delta'] = m
+    elif dm == 'groups':
+        kw['delta_groups'] = {}
+    elif dm == 'groups-array':
+        with S.quiet():
+            g = np.array(dbm.FluidMixture(list(comp), delta_groups={}).delta_groups, dtype=float)
+        if g.shape == (n, 15) and np.all(g.sum(axis=1) > 0):
+            kw['delta_groups'] = g
+        else:
+            dm = 'groups'
+            kw['delta_groups'] = {}
+    d['delta_mode'] = dm
+    if not for_particle and r.random() < 0.3:
+        kw['sigma_correction'] = np.array([[r.uniform(0.5, 1.5)], [r.uniform(0.5, 1.5)]])
+        d['sigma_correction'] = kw['sigma_correction'].ravel().tolist()
+    d['delta'] = kw['delta'].tolist() if 'delta' in kw else None
+    return kw, d
+
+
+# ---------------------------------------------------------------------------
 # (a1) mixture histories
 # ---------------------------------------------------------------------------
 
@@ -259,8 +324,16 @@ def mixture_histories(ctx, r, n):
     def call(obj, method, args):
         return getattr(obj, method)(*args)
     ctx.planned['mixture-equilibrium'] = n
-    for _ in range(n):
-        fm, d = mixgen.mixture(r, nmin=1, nmax=5, peneloux=False)
+    for hidx in range(n):
+        comp = mixgen.composition(r, 1, 5)
+        kw, d = user_options(r, comp, hidx)
+        with S.quiet():
+            fm = dbm.FluidMixture(list(comp), **kw)
+        d['composition'] = list(comp)
+        ctx.objects['mixture'] = ctx.objects.get('mixture', 0) + 1
+        if d['user_C_pen'] and fm.C_pen[0] != 0. and np.any(fm.C_pen_T != 0.):
+            ctx.objects['mixture-user-C_pen'] = ctx.objects.get('mixture-user-C_pen', 0) + 1
+            ctx.count('mixture object with user C_pen / C_pen_T (%s components)' % ('all' if len(d['user_C_pen']) == len(comp) else 'some'))
         nc = len(d['composition'])
         states = []
         for _k in range(r.randint(1, 4)):
@@ -308,11 +381,25 @@ def mixture_histories(ctx, r, n):
 
 def particle_histories(ctx, r, n, lines, owners):
     ctx.planned['particle'] = n
+    from tamoc import dbm
+    nfluid = 0
     with c09.LibRecorder() as rec:
         for hidx in range(n):
             kind = r.choice(['fluid', 'fluid', 'fluid', 'inert'])
             if kind == 'fluid':
                 obj, descr, yk = c09.gen_fluid(r, r.choice([0, 1, 2, 2]))
+                # the same particle with non-default by-reference constructor data (user Peneloux shift, k_bio / t_bio,
+                # delta matrix / group arrays): every third fluid object carries a user C_pen / C_pen_T
+                kw, du = user_options(r, descr['composition'], nfluid, for_particle=True)
+                nfluid += 1
+                with S.quiet():
+                    obj = dbm.FluidParticle(list(descr['composition']), fp_type=descr['fp_type'], isair=descr['isair'],
+                                            sigma_correction=descr['sigma_correction'], **kw)
+                descr.update(delta_mode=du['delta_mode'], delta=du['delta'], user_C_pen=du['user_C_pen'], user_bio=du['user_bio'])
+                ctx.objects['particle'] = ctx.objects.get('particle', 0) + 1
+                if du['user_C_pen'] and obj.C_pen[0] != 0. and np.any(obj.C_pen_T != 0.):
+                    ctx.objects['particle-user-C_pen'] = ctx.objects.get('particle-user-C_pen', 0) + 1
+                    ctx.count('particle object with user C_pen / C_pen_T')
                 methods = c09.FLUID_METHODS
             else:
                 obj, descr = c09.gen_inert(r)
@@ -1030,7 +1117,7 @@ def compare_blowout(own, resp):
 def run(ctx, lean_ok):
     r = ctx.rng
     ctx.notes_raise = {}
-    ctx.skips, ctx.planned = {}, {}
+    ctx.skips, ctx.planned, ctx.objects = {}, {}, {}
     ctx.raised_calls, ctx.total_calls = 0, 0
     detect_variants(ctx)
     ctx.code_variant = dict(VARIANT, **c09.CODE)
@@ -1047,6 +1134,12 @@ def run(ctx, lean_ok):
     profile_histories(ctx, r, ctx.n(40, 800), lines, owners)
     coefs_cases(ctx, r, ctx.n(40, 600), lines, owners)
     blowout_sequences(ctx, r, ctx.n(17 + 14, 17 + 300), lines, owners)
+    ob = ctx.objects
+    ctx.oblige('objects built with user_data overriding C_pen / C_pen_T (non-zero, first component included): %d of %d mixtures, '
+               '%d of %d fluid particles (floor 30 %% each)' % (ob.get('mixture-user-C_pen', 0), ob.get('mixture', 0),
+                                                                 ob.get('particle-user-C_pen', 0), ob.get('particle', 0)),
+               ob.get('mixture-user-C_pen', 0) >= 0.3 * max(ob.get('mixture', 0), 1) and
+               ob.get('particle-user-C_pen', 0) >= 0.3 * max(ob.get('particle', 0), 1), 'generator floor not reached')
     missing = [o for o in OPS if o not in ctx.blow_last]
     ctx.oblige('Blowout floors: every one of the 13 update methods is the LAST call of a compared sequence (missing: %r); '
                '%d compared sequences change the flow-rate convention (oil bins switched on/off; floor 3)' % (missing, ctx.blow_flips),
